@@ -290,9 +290,9 @@ theorem pruneDB_mem_fst {now : Nat} {fromDB : KeyMap} {kr : ReqMap} {x : KeyReq 
   · cases h1
   · exact h1
 
-theorem mergeStep_mem_fst (st : KeyMap × ReqMap) (e : KeyReq × KeyRes) (x : KeyReq × KeyRes)
+theorem mergeStep_mem_fst (st : KeyMap × ReqMap × KeyMap) (e : KeyReq × KeyRes) (x : KeyReq × KeyRes)
     (h : x ∈ (mergeStep st e).1) : x ∈ st.1 ∨ x = e := by
-  obtain ⟨kf, kr⟩ := st; obtain ⟨q, k⟩ := e
+  obtain ⟨kf, kr, ks⟩ := st; obtain ⟨q, k⟩ := e
   simp only [mergeStep] at h
   split at h
   · exact Or.inl h
@@ -300,15 +300,15 @@ theorem mergeStep_mem_fst (st : KeyMap × ReqMap) (e : KeyReq × KeyRes) (x : Ke
     · exact Or.inr h2
     · exact Or.inl h2
 
-theorem mergeStep_mem_snd (st : KeyMap × ReqMap) (e : KeyReq × KeyRes) (x : KeyReq × Nat)
-    (h : x ∈ (mergeStep st e).2) : x ∈ st.2 := by
-  obtain ⟨kf, kr⟩ := st; obtain ⟨q, k⟩ := e
+theorem mergeStep_mem_snd (st : KeyMap × ReqMap × KeyMap) (e : KeyReq × KeyRes) (x : KeyReq × Nat)
+    (h : x ∈ (mergeStep st e).2.1) : x ∈ st.2.1 := by
+  obtain ⟨kf, kr, ks⟩ := st; obtain ⟨q, k⟩ := e
   simp only [mergeStep] at h
   split at h
   · exact h
   · exact (AList.mem_erase h).1
 
-theorem merge_mem_fst (l : KeyMap) (st : KeyMap × ReqMap) (x : KeyReq × KeyRes)
+theorem merge_mem_fst (l : KeyMap) (st : KeyMap × ReqMap × KeyMap) (x : KeyReq × KeyRes)
     (h : x ∈ (l.foldl mergeStep st).1) : x ∈ st.1 ∨ x ∈ l := by
   induction l generalizing st with
   | nil => exact Or.inl h
@@ -320,8 +320,8 @@ theorem merge_mem_fst (l : KeyMap) (st : KeyMap × ReqMap) (x : KeyReq × KeyRes
       · right; rw [h2]; simp
     · exact Or.inr (List.mem_cons_of_mem _ h1)
 
-theorem merge_mem_snd (l : KeyMap) (st : KeyMap × ReqMap) (x : KeyReq × Nat)
-    (h : x ∈ (l.foldl mergeStep st).2) : x ∈ st.2 := by
+theorem merge_mem_snd (l : KeyMap) (st : KeyMap × ReqMap × KeyMap) (x : KeyReq × Nat)
+    (h : x ∈ (l.foldl mergeStep st).2.1) : x ∈ st.2.1 := by
   induction l generalizing st with
   | nil => exact h
   | cons e rest ih =>
@@ -508,7 +508,7 @@ def earlyTry (reqs : List Request) (fromDB : KeyMap) (now : Nat) : Bool := (afte
 def results1 (reqs : List Request) (fromDB : KeyMap) (now : Nat) : List Bool :=
   if earlyTry reqs fromDB now then checkUsingKeys (afterDB reqs fromDB now).1 now reqs (results0 reqs) else results0 reqs
 def finalState (reqs : List Request) (fromDB : KeyMap) (fetchers : List FetchScript) (now : Nat) : FetchState :=
-  fetchLoop (enumFrom 0 fetchers) { keyRequests := (afterDB reqs fromDB now).2, keysFetched := (afterDB reqs fromDB now).1, calls := [] }
+  fetchLoop (enumFrom 0 fetchers) { keyRequests := (afterDB reqs fromDB now).2, keysFetched := (afterDB reqs fromDB now).1, keysToStore := [], calls := [] }
 
 theorem verifyJSONs_eq (reqs : List Request) (db : FetchScript) (storeOk : Bool) (fetchers : List FetchScript) (now : Nat) :
     verifyJSONs reqs db storeOk fetchers now =
@@ -520,11 +520,11 @@ theorem verifyJSONs_eq (reqs : List Request) (db : FetchScript) (storeOk : Bool)
             (.ok (results1 reqs fromDB now), { dbAsked := some (keyRequests0 reqs) })
           else if !storeOk then
             (.error .store, { dbAsked := some (keyRequests0 reqs), fetcherCalls := (finalState reqs fromDB fetchers now).calls,
-                              stored := some (finalState reqs fromDB fetchers now).keysFetched })
+                              stored := some (finalState reqs fromDB fetchers now).keysToStore })
           else
             (.ok (checkUsingKeys (finalState reqs fromDB fetchers now).keysFetched now reqs (results1 reqs fromDB now)),
              { dbAsked := some (keyRequests0 reqs), fetcherCalls := (finalState reqs fromDB fetchers now).calls,
-               stored := some (finalState reqs fromDB fetchers now).keysFetched }) := by
+               stored := some (finalState reqs fromDB fetchers now).keysToStore }) := by
   cases db <;> rfl
 
 /-- The three ways `verifyJSONs` returns results. -/
@@ -536,7 +536,7 @@ theorem verifyJSONs_ok {reqs : List Request} {db : FetchScript} {storeOk : Bool}
           tr.fetcherCalls = [] ∧ tr.stored = none) ∨
        (storeOk = true ∧ rs = checkUsingKeys (finalState reqs fromDB fetchers now).keysFetched now reqs (results1 reqs fromDB now) ∧
           tr.fetcherCalls = (finalState reqs fromDB fetchers now).calls ∧
-          tr.stored = some (finalState reqs fromDB fetchers now).keysFetched)) := by
+          tr.stored = some (finalState reqs fromDB fetchers now).keysToStore)) := by
   rw [verifyJSONs_eq] at h
   by_cases he : (keyRequests0 reqs).isEmpty = true
   · simp only [he, ↓reduceIte, Prod.mk.injEq, Except.ok.injEq] at h
@@ -568,29 +568,29 @@ theorem verifyJSONs_ok {reqs : List Request} {db : FetchScript} {storeOk : Bool}
 theorem contains_false_iff {α β} [DecidableEq α] (k : α) (m : List (α × β)) : AList.contains k m = false ↔ AList.lookup k m = none := by
   unfold AList.contains; cases AList.lookup k m <;> simp
 
-theorem mergeStep_other (st : KeyMap × ReqMap) (e : KeyReq × KeyRes) (q : KeyReq) (h : e.1 ≠ q) :
-    AList.lookup q (mergeStep st e).1 = AList.lookup q st.1 ∧ AList.lookup q (mergeStep st e).2 = AList.lookup q st.2 := by
-  obtain ⟨kf, kr⟩ := st; obtain ⟨q', k⟩ := e
+theorem mergeStep_other (st : KeyMap × ReqMap × KeyMap) (e : KeyReq × KeyRes) (q : KeyReq) (h : e.1 ≠ q) :
+    AList.lookup q (mergeStep st e).1 = AList.lookup q st.1 ∧ AList.lookup q (mergeStep st e).2.1 = AList.lookup q st.2.1 := by
+  obtain ⟨kf, kr, ks⟩ := st; obtain ⟨q', k⟩ := e
   simp only [mergeStep]
   split
   · exact ⟨rfl, rfl⟩
   · exact ⟨AList.lookup_insert_ne _ _ (Ne.symm h), AList.lookup_erase_ne _ (Ne.symm h)⟩
 
 /-- a key held and no longer requested is never touched again -/
-theorem mergeStep_stable (st : KeyMap × ReqMap) (e : KeyReq × KeyRes) (q : KeyReq) (v : KeyRes)
-    (h1 : AList.lookup q st.1 = some v) (h2 : AList.lookup q st.2 = none) :
-    AList.lookup q (mergeStep st e).1 = some v ∧ AList.lookup q (mergeStep st e).2 = none := by
+theorem mergeStep_stable (st : KeyMap × ReqMap × KeyMap) (e : KeyReq × KeyRes) (q : KeyReq) (v : KeyRes)
+    (h1 : AList.lookup q st.1 = some v) (h2 : AList.lookup q st.2.1 = none) :
+    AList.lookup q (mergeStep st e).1 = some v ∧ AList.lookup q (mergeStep st e).2.1 = none := by
   by_cases he : e.1 = q
-  · obtain ⟨kf, kr⟩ := st; obtain ⟨q', k⟩ := e
+  · obtain ⟨kf, kr, ks⟩ := st; obtain ⟨q', k⟩ := e
     simp only at he; subst he
     simp only at h1 h2
     simp [mergeStep, AList.contains, h1, h2]
   · have := mergeStep_other st e q he
     rw [this.1, this.2]; exact ⟨h1, h2⟩
 
-theorem merge_stable (l : KeyMap) (st : KeyMap × ReqMap) (q : KeyReq) (v : KeyRes)
-    (h1 : AList.lookup q st.1 = some v) (h2 : AList.lookup q st.2 = none) :
-    AList.lookup q (l.foldl mergeStep st).1 = some v ∧ AList.lookup q (l.foldl mergeStep st).2 = none := by
+theorem merge_stable (l : KeyMap) (st : KeyMap × ReqMap × KeyMap) (q : KeyReq) (v : KeyRes)
+    (h1 : AList.lookup q st.1 = some v) (h2 : AList.lookup q st.2.1 = none) :
+    AList.lookup q (l.foldl mergeStep st).1 = some v ∧ AList.lookup q (l.foldl mergeStep st).2.1 = none := by
   induction l generalizing st with
   | nil => exact ⟨h1, h2⟩
   | cons e rest ih =>
@@ -598,8 +598,8 @@ theorem merge_stable (l : KeyMap) (st : KeyMap × ReqMap) (q : KeyReq) (v : KeyR
     have := mergeStep_stable st e q v h1 h2
     exact ih _ this.1 this.2
 
-theorem merge_other (l : KeyMap) (st : KeyMap × ReqMap) (q : KeyReq) (h : AList.lookup q l = none) :
-    AList.lookup q (l.foldl mergeStep st).1 = AList.lookup q st.1 ∧ AList.lookup q (l.foldl mergeStep st).2 = AList.lookup q st.2 := by
+theorem merge_other (l : KeyMap) (st : KeyMap × ReqMap × KeyMap) (q : KeyReq) (h : AList.lookup q l = none) :
+    AList.lookup q (l.foldl mergeStep st).1 = AList.lookup q st.1 ∧ AList.lookup q (l.foldl mergeStep st).2.1 = AList.lookup q st.2.1 := by
   induction l generalizing st with
   | nil => exact ⟨rfl, rfl⟩
   | cons e rest ih =>
@@ -614,9 +614,9 @@ theorem merge_other (l : KeyMap) (st : KeyMap × ReqMap) (q : KeyReq) (h : AList
       rw [h2.1, h2.2, h1.1, h1.2]; exact ⟨rfl, rfl⟩
 
 /-- a requested key that the answer contains is taken from the answer and leaves the request map -/
-theorem merge_requested (l : KeyMap) (st : KeyMap × ReqMap) (q : KeyReq) (v : KeyRes)
-    (hl : AList.lookup q l = some v) (hreq : (AList.lookup q st.2).isSome = true) :
-    AList.lookup q (l.foldl mergeStep st).1 = some v ∧ AList.lookup q (l.foldl mergeStep st).2 = none := by
+theorem merge_requested (l : KeyMap) (st : KeyMap × ReqMap × KeyMap) (q : KeyReq) (v : KeyRes)
+    (hl : AList.lookup q l = some v) (hreq : (AList.lookup q st.2.1).isSome = true) :
+    AList.lookup q (l.foldl mergeStep st).1 = some v ∧ AList.lookup q (l.foldl mergeStep st).2.1 = none := by
   induction l generalizing st with
   | nil => cases hl
   | cons e rest ih =>
@@ -628,11 +628,11 @@ theorem merge_requested (l : KeyMap) (st : KeyMap × ReqMap) (q : KeyReq) (v : K
       subst heq
       cases hl
       apply merge_stable
-      · obtain ⟨kf, kr⟩ := st
+      · obtain ⟨kf, kr, ks⟩ := st
         simp only at hreq
         simp only [mergeStep, AList.contains, hreq, Bool.not_true, Bool.false_and, Bool.false_eq_true, ↓reduceIte]
         exact AList.lookup_insert_self _ _ _
-      · obtain ⟨kf, kr⟩ := st
+      · obtain ⟨kf, kr, ks⟩ := st
         simp only at hreq
         simp only [mergeStep, AList.contains, hreq, Bool.not_true, Bool.false_and, Bool.false_eq_true, ↓reduceIte]
         exact AList.lookup_erase_self _ _
@@ -656,7 +656,7 @@ theorem fetchLoop_stable (fs : List (Nat × FetchScript)) (st : FetchState) (q :
         simp only
         split
         · exact ih _ h1 h2
-        · have := merge_stable fetched (st.keysFetched, st.keyRequests) q v h1 h2
+        · have := merge_stable fetched (st.keysFetched, st.keyRequests, st.keysToStore) q v h1 h2
           exact ih _ this.1 this.2
 
 /-- the answer of the first fetcher (in call order) whose answer has an entry for `q` -/
@@ -697,11 +697,11 @@ theorem fetchLoop_requested (fs : List (Nat × FetchScript)) (st : FetchState) (
       · cases hl : AList.lookup q fetched with
         | some k =>
           simp only
-          have := merge_requested fetched (st.keysFetched, st.keyRequests) q k hl hreq
+          have := merge_requested fetched (st.keysFetched, st.keyRequests, st.keysToStore) q k hl hreq
           exact fetchLoop_stable rest _ q k this.1 this.2
         | none =>
           simp only
-          have := merge_other fetched (st.keysFetched, st.keyRequests) q hl
+          have := merge_other fetched (st.keysFetched, st.keyRequests, st.keysToStore) q hl
           rw [ih _ (by simpa [this.2] using hreq)]
           simp only [this.1]
 
@@ -882,7 +882,7 @@ theorem trace_of {reqs : List Request} {db : FetchScript} {storeOk : Bool} {fetc
     {out : Except CallErr (List Bool)} {tr : Trace} (h : verifyJSONs reqs db storeOk fetchers now = (out, tr)) :
     (tr.fetcherCalls = [] ∧ tr.stored = none) ∨
     ∃ fromDB, db = some fromDB ∧ tr.fetcherCalls = (finalState reqs fromDB fetchers now).calls ∧
-      tr.stored = some (finalState reqs fromDB fetchers now).keysFetched := by
+      tr.stored = some (finalState reqs fromDB fetchers now).keysToStore := by
   rw [verifyJSONs_eq] at h
   split at h
   · cases h; exact Or.inl ⟨rfl, rfl⟩
@@ -949,7 +949,275 @@ theorem fetchLoop_answers (fs : List FetchScript) (n : Nat) (st : FetchState) :
           simp only [hfe, Bool.false_eq_true, ↓reduceIte]
           refine later _ rfl hc (fun m hm q v hx hcont => ?_)
           cases hm
-          have := merge_requested fetched (st.keysFetched, st.keyRequests) q v hx (by simpa [AList.contains] using hcont)
+          have := merge_requested fetched (st.keysFetched, st.keyRequests, st.keysToStore) q v hx (by simpa [AList.contains] using hcont)
           exact fetchLoop_stable _ _ _ _ this.1 this.2
+
+/-! ## `keysToStore`: what is handed to `StoreKeys` -/
+
+theorem mergeStep_mem_trd (st : KeyMap × ReqMap × KeyMap) (e : KeyReq × KeyRes) (x : KeyReq × KeyRes)
+    (h : x ∈ (mergeStep st e).2.2) : x ∈ st.2.2 ∨ x = e := by
+  obtain ⟨kf, kr, ks⟩ := st; obtain ⟨q, k⟩ := e
+  simp only [mergeStep] at h
+  split at h
+  · exact Or.inl h
+  · rcases AList.mem_insert h with h2 | h2
+    · exact Or.inr h2
+    · exact Or.inl h2
+
+theorem merge_mem_trd (l : KeyMap) (st : KeyMap × ReqMap × KeyMap) (x : KeyReq × KeyRes)
+    (h : x ∈ (l.foldl mergeStep st).2.2) : x ∈ st.2.2 ∨ x ∈ l := by
+  induction l generalizing st with
+  | nil => exact Or.inl h
+  | cons e rest ih =>
+    simp only [foldl_cons] at h
+    rcases ih _ h with h1 | h1
+    · rcases mergeStep_mem_trd _ _ _ h1 with h2 | h2
+      · exact Or.inl h2
+      · right; rw [h2]; simp
+    · exact Or.inr (List.mem_cons_of_mem _ h1)
+
+theorem fetchLoop_calls_mono (fs : List (Nat × FetchScript)) (st : FetchState) :
+    ∀ c ∈ st.calls, c ∈ (fetchLoop fs st).calls := by
+  induction fs generalizing st with
+  | nil => intro c h; exact h
+  | cons f rest ih =>
+    obtain ⟨idx, f⟩ := f
+    intro c hc
+    simp only [fetchLoop]
+    split
+    · exact hc
+    · cases f with
+      | none => exact ih _ c (List.mem_append_left _ hc)
+      | some fetched =>
+        simp only
+        split
+        · exact ih _ c (List.mem_append_left _ hc)
+        · exact ih _ c (List.mem_append_left _ hc)
+
+/-- **only what came from a fetcher**: every entry of `keysToStore` after the fetcher loop was there before or is an entry
+    of the answer of a fetcher that the loop called -/
+theorem fetchLoop_toStore_mem (fs : List (Nat × FetchScript)) (st : FetchState) :
+    ∀ x ∈ (fetchLoop fs st).keysToStore, x ∈ st.keysToStore ∨
+      ∃ idx m asked, (idx, some m) ∈ fs ∧ (idx, asked) ∈ (fetchLoop fs st).calls ∧ x ∈ m := by
+  induction fs generalizing st with
+  | nil => intro x h; exact Or.inl h
+  | cons f rest ih =>
+    obtain ⟨idx, f⟩ := f
+    intro x hx
+    simp only [fetchLoop] at hx ⊢
+    split at hx
+    · rename_i hemp; simp only [hemp, ↓reduceIte]; exact Or.inl hx
+    · rename_i hemp
+      simp only [hemp, Bool.false_eq_true, ↓reduceIte]
+      cases f with
+      | none =>
+        simp only at hx ⊢
+        rcases ih _ x hx with h1 | ⟨i, m, a, hm, hc, hxm⟩
+        · exact Or.inl h1
+        · exact Or.inr ⟨i, m, a, List.mem_cons_of_mem _ hm, hc, hxm⟩
+      | some fetched =>
+        simp only at hx ⊢
+        split at hx
+        · rename_i hfe
+          simp only [hfe, ↓reduceIte]
+          rcases ih _ x hx with h1 | ⟨i, m, a, hm, hc, hxm⟩
+          · exact Or.inl h1
+          · exact Or.inr ⟨i, m, a, List.mem_cons_of_mem _ hm, hc, hxm⟩
+        · rename_i hfe
+          simp only [hfe, Bool.false_eq_true, ↓reduceIte]
+          rcases ih _ x hx with h1 | ⟨i, m, a, hm, hc, hxm⟩
+          · rcases merge_mem_trd _ _ _ h1 with h2 | h2
+            · exact Or.inl h2
+            · refine Or.inr ⟨idx, fetched, st.keyRequests, by simp, ?_, h2⟩
+              apply fetchLoop_calls_mono
+              simp
+          · exact Or.inr ⟨i, m, a, List.mem_cons_of_mem _ hm, hc, hxm⟩
+
+/-- a key held and no longer requested: no later answer changes what is noted for it in `keysToStore` -/
+theorem mergeStep_stable_trd (st : KeyMap × ReqMap × KeyMap) (e : KeyReq × KeyRes) (q : KeyReq) (v : KeyRes)
+    (h1 : AList.lookup q st.1 = some v) (h2 : AList.lookup q st.2.1 = none) :
+    AList.lookup q (mergeStep st e).2.2 = AList.lookup q st.2.2 := by
+  obtain ⟨kf, kr, ks⟩ := st; obtain ⟨q', k⟩ := e
+  simp only at h1 h2
+  by_cases he : q' = q
+  · subst he
+    simp [mergeStep, AList.contains, h1, h2]
+  · simp only [mergeStep]
+    split
+    · rfl
+    · exact AList.lookup_insert_ne _ _ (Ne.symm he)
+
+theorem merge_stable_trd (l : KeyMap) (st : KeyMap × ReqMap × KeyMap) (q : KeyReq) (v : KeyRes)
+    (h1 : AList.lookup q st.1 = some v) (h2 : AList.lookup q st.2.1 = none) :
+    AList.lookup q (l.foldl mergeStep st).2.2 = AList.lookup q st.2.2 := by
+  induction l generalizing st with
+  | nil => rfl
+  | cons e rest ih =>
+    simp only [foldl_cons]
+    have h := mergeStep_stable st e q v h1 h2
+    rw [ih _ h.1 h.2, mergeStep_stable_trd st e q v h1 h2]
+
+theorem mergeStep_other_trd (st : KeyMap × ReqMap × KeyMap) (e : KeyReq × KeyRes) (q : KeyReq) (h : e.1 ≠ q) :
+    AList.lookup q (mergeStep st e).2.2 = AList.lookup q st.2.2 := by
+  obtain ⟨kf, kr, ks⟩ := st; obtain ⟨q', k⟩ := e
+  simp only [mergeStep]
+  split
+  · rfl
+  · exact AList.lookup_insert_ne _ _ (Ne.symm h)
+
+/-- a requested key that the answer contains is noted in `keysToStore` with the answer's value -/
+theorem merge_requested_trd (l : KeyMap) (st : KeyMap × ReqMap × KeyMap) (q : KeyReq) (v : KeyRes)
+    (hl : AList.lookup q l = some v) (hreq : (AList.lookup q st.2.1).isSome = true) :
+    AList.lookup q (l.foldl mergeStep st).2.2 = some v := by
+  induction l generalizing st with
+  | nil => cases hl
+  | cons e rest ih =>
+    obtain ⟨q', k⟩ := e
+    simp only [AList.lookup] at hl
+    simp only [foldl_cons]
+    split at hl
+    · rename_i heq
+      subst heq
+      cases hl
+      obtain ⟨kf, kr, ks⟩ := st
+      simp only at hreq
+      have hstep : mergeStep (kf, kr, ks) (q', v) = (AList.insert q' v kf, AList.erase q' kr, AList.insert q' v ks) := by
+        simp only [mergeStep, AList.contains, hreq, Bool.not_true, Bool.false_and, Bool.false_eq_true, ↓reduceIte]
+      rw [hstep, merge_stable_trd rest _ q' v (AList.lookup_insert_self _ _ _) (AList.lookup_erase_self _ _)]
+      exact AList.lookup_insert_self _ _ _
+    · rename_i hne
+      have h1 := mergeStep_other st (q', k) q hne
+      exact ih _ hl (by rw [h1.2]; exact hreq)
+
+theorem fetchLoop_stable_trd (fs : List (Nat × FetchScript)) (st : FetchState) (q : KeyReq) (v : KeyRes)
+    (h1 : AList.lookup q st.keysFetched = some v) (h2 : AList.lookup q st.keyRequests = none) :
+    AList.lookup q (fetchLoop fs st).keysToStore = AList.lookup q st.keysToStore := by
+  induction fs generalizing st with
+  | nil => rfl
+  | cons f rest ih =>
+    obtain ⟨idx, f⟩ := f
+    simp only [fetchLoop]
+    split
+    · rfl
+    · cases f with
+      | none => exact ih _ h1 h2
+      | some fetched =>
+        simp only
+        split
+        · exact ih _ h1 h2
+        · have h := merge_stable fetched (st.keysFetched, st.keyRequests, st.keysToStore) q v h1 h2
+          rw [ih _ h.1 h.2]
+          exact merge_stable_trd fetched (st.keysFetched, st.keyRequests, st.keysToStore) q v h1 h2
+
+/-- what a call's answer gives for a key it was asked for is what is handed to `StoreKeys` for that key -/
+theorem fetchLoop_toStore_answers (fs : List FetchScript) (n : Nat) (st : FetchState) :
+    ∀ c ∈ (fetchLoop (enumFrom n fs) st).calls, c ∈ st.calls ∨
+      (n ≤ c.1 ∧ ∀ m, fs[c.1 - n]? = some (some m) → ∀ (q : KeyReq) (v : KeyRes), AList.lookup q m = some v →
+        AList.contains q c.2 = true → AList.lookup q (fetchLoop (enumFrom n fs) st).keysToStore = some v) := by
+  induction fs generalizing n st with
+  | nil => intro c hc; exact Or.inl hc
+  | cons f rest ih =>
+    intro c hc
+    simp only [enumFrom, fetchLoop] at hc ⊢
+    split at hc
+    · rename_i hemp; simp only [hemp, ↓reduceIte]; exact Or.inl hc
+    · rename_i hemp
+      simp only [hemp, Bool.false_eq_true, ↓reduceIte]
+      have later : ∀ st' : FetchState, st'.calls = st.calls ++ [(n, st.keyRequests)] →
+          c ∈ (fetchLoop (enumFrom (n + 1) rest) st').calls →
+          (∀ m, f = some m → ∀ (q : KeyReq) (v : KeyRes), AList.lookup q m = some v → AList.contains q st.keyRequests = true →
+              AList.lookup q (fetchLoop (enumFrom (n + 1) rest) st').keysToStore = some v) →
+          c ∈ st.calls ∨ (n ≤ c.1 ∧ ∀ m, (f :: rest)[c.1 - n]? = some (some m) → ∀ (q : KeyReq) (v : KeyRes), AList.lookup q m = some v →
+              AList.contains q c.2 = true → AList.lookup q (fetchLoop (enumFrom (n + 1) rest) st').keysToStore = some v) := by
+        intro st' hcalls hmem hthis
+        rcases ih (n + 1) st' c hmem with h1 | ⟨hge, h1⟩
+        · rw [hcalls] at h1
+          rcases List.mem_append.1 h1 with h2 | h2
+          · exact Or.inl h2
+          · simp only [mem_cons, not_mem_nil, or_false] at h2
+            subst h2
+            refine Or.inr ⟨Nat.le_refl _, fun m hm q v hx hcont => ?_⟩
+            simp only [Nat.sub_self, getElem?_cons_zero, Option.some.injEq] at hm
+            exact hthis m hm q v hx hcont
+        · refine Or.inr ⟨by omega, fun m hm q v hx hcont => ?_⟩
+          have : c.1 - n = (c.1 - (n + 1)) + 1 := by omega
+          rw [this, getElem?_cons_succ] at hm
+          exact h1 m hm q v hx hcont
+      cases f with
+      | none =>
+        simp only at hc ⊢
+        exact later _ rfl hc (fun m hm => by cases hm)
+      | some fetched =>
+        simp only at hc ⊢
+        split at hc
+        · rename_i hfe
+          simp only [hfe, ↓reduceIte]
+          refine later _ rfl hc (fun m hm q v hx _ => ?_)
+          cases hm
+          have : fetched = [] := by simpa using hfe
+          subst this; simp [AList.lookup] at hx
+        · rename_i hfe
+          simp only [hfe, Bool.false_eq_true, ↓reduceIte]
+          refine later _ rfl hc (fun m hm q v hx hcont => ?_)
+          cases hm
+          have hr : (AList.lookup q (st.keysFetched, st.keyRequests, st.keysToStore).2.1).isSome = true := by
+            simpa [AList.contains] using hcont
+          have h3 := merge_requested fetched (st.keysFetched, st.keyRequests, st.keysToStore) q v hx hr
+          have h4 := merge_requested_trd fetched (st.keysFetched, st.keyRequests, st.keysToStore) q v hx hr
+          rw [fetchLoop_stable_trd _ _ q v h3.1 h3.2]
+          exact h4
+
+/-- fetchers that fail or answer nothing leave nothing to store -/
+theorem fetchLoop_toStore_silent (fs : List (Nat × FetchScript)) (st : FetchState)
+    (h : ∀ p ∈ fs, p.2 = none ∨ p.2 = some []) : (fetchLoop fs st).keysToStore = st.keysToStore := by
+  induction fs generalizing st with
+  | nil => rfl
+  | cons f rest ih =>
+    obtain ⟨idx, f⟩ := f
+    have hrest : ∀ p ∈ rest, p.2 = none ∨ p.2 = some [] := fun p hp => h p (List.mem_cons_of_mem _ hp)
+    simp only [fetchLoop]
+    split
+    · rfl
+    · rcases h (idx, f) (by simp) with h1 | h1
+      · simp only at h1; subst h1; exact ih _ hrest
+      · simp only at h1; subst h1
+        simp only [List.isEmpty_nil, ↓reduceIte]
+        exact ih _ hrest
+
+theorem mem_enumFrom_snd {α} {n : Nat} {l : List α} {p : Nat × α} (h : p ∈ enumFrom n l) : p.2 ∈ l := by
+  induction l generalizing n with
+  | nil => cases h
+  | cons y ys ih =>
+    simp only [enumFrom, mem_cons] at h
+    rcases h with rfl | h
+    · simp
+    · exact List.mem_cons_of_mem _ (ih h)
+
+/-- every entry handed to `StoreKeys` is an entry of the answer of a fetcher this call consulted -/
+theorem verifyJSONs_stored_mem {reqs : List Request} {db : FetchScript} {storeOk : Bool} {fetchers : List FetchScript} {now : Nat}
+    {out : Except CallErr (List Bool)} {tr : Trace} (h : verifyJSONs reqs db storeOk fetchers now = (out, tr))
+    (stored : KeyMap) (hs : tr.stored = some stored) (e : KeyReq × KeyRes) (he : e ∈ stored) :
+    ∃ c ∈ tr.fetcherCalls, ∃ m, fetchers[c.1]? = some (some m) ∧ e ∈ m := by
+  rcases trace_of h with ⟨_, h1⟩ | ⟨fromDB, _, hcalls, hst⟩
+  · rw [h1] at hs; cases hs
+  · rw [hst] at hs
+    cases hs
+    unfold finalState at he hcalls
+    rcases fetchLoop_toStore_mem _ _ e he with h1 | ⟨idx, m, asked, hm, hcall, hem⟩
+    · cases h1
+    · refine ⟨(idx, asked), by rw [hcalls]; exact hcall, m, ?_, hem⟩
+      have := (mem_enumFrom hm).1
+      simpa using this
+
+/-- fetchers that fail or answer nothing: `StoreKeys` is not called, or called with nothing -/
+theorem verifyJSONs_stored_silent {reqs : List Request} {db : FetchScript} {storeOk : Bool} {fetchers : List FetchScript} {now : Nat}
+    {out : Except CallErr (List Bool)} {tr : Trace} (h : verifyJSONs reqs db storeOk fetchers now = (out, tr))
+    (hf : ∀ f ∈ fetchers, f = none ∨ f = some []) : tr.stored = none ∨ tr.stored = some [] := by
+  rcases trace_of h with ⟨_, h1⟩ | ⟨fromDB, _, _, hst⟩
+  · exact Or.inl h1
+  · right
+    rw [hst]
+    unfold finalState
+    rw [fetchLoop_toStore_silent _ _ (fun p hp => hf p.2 (mem_enumFrom_snd hp))]
 
 end V.KeyRing
